@@ -22,34 +22,32 @@ Print Assumptions C04_b10_spec.
 
 (* REQ uses min(value, max-req-timeout): any length, any number of leading zeros,
    values beyond 2^64 included *)
-Theorem C04_req_clamp_full : forall max_req p, (0 <= max_req <= max_i64)%Z ->
+Theorem C04_req_clamp_full :
+  (forall max_req p, (0 <= max_req <= max_i64)%Z ->
   req_param max_req p =
-    if all_digits p then ReqDelay (Z.min (ms_ns p) max_req) else ReqInvalid.
-Proof. exact req_param_spec. Qed.
+    if all_digits p then ReqDelay (Z.min (ms_ns p) max_req) else ReqInvalid) /\
+  (forall k p,
+  dec_value (repeat 48%N k ++ p) = dec_value p /\
+  all_digits (repeat 48%N k ++ p) = all_digits p).
+Proof. exact (conj (req_param_spec) (leading_zeros_irrelevant)). Qed.
 Print Assumptions C04_req_clamp_full.
 
-Theorem C04_leading_zeros : forall k p,
-  dec_value (repeat 48%N k ++ p) = dec_value p /\
-  all_digits (repeat 48%N k ++ p) = all_digits p.
-Proof. exact leading_zeros_irrelevant. Qed.
-Print Assumptions C04_leading_zeros.
 
 (* DPUB is accepted iff 0 <= value <= max-req-timeout, and then uses exactly the value.
    (max_req = MaxInt64 ns exactly is excluded: see C04_dpub_edge below.) *)
-Theorem C04_dpub_range_full : forall max_req p, (0 <= max_req < max_i64)%Z ->
+Theorem C04_defer_range_full :
+  (forall max_req p, (0 <= max_req < max_i64)%Z ->
   dpub_param max_req p =
-    if all_digits p && (ms_ns p <=? max_req)%Z then DpubDelay (ms_ns p) else DpubInvalid.
-Proof. exact dpub_param_spec. Qed.
-Print Assumptions C04_dpub_range_full.
+    if all_digits p && (ms_ns p <=? max_req)%Z then DpubDelay (ms_ns p) else DpubInvalid) /\
+  (forall max_req s, (0 <= max_req < max_i64)%Z ->
+  http_defer_raw max_req s =
+    if int_text s && (0 <=? int_value s)%Z && (int_value s * ns_per_ms <=? max_req)%Z
+    then DpubDelay (int_value s * ns_per_ms) else DpubInvalid).
+Proof. exact (conj (dpub_param_spec) (http_defer_raw_spec)). Qed.
+Print Assumptions C04_defer_range_full.
 
 (* HTTP /pub?defer=s: for every string s, accepted iff s is the text of an integer
    (optional sign, decimal digits) whose value v satisfies 0 <= v ms <= max-req-timeout *)
-Theorem C04_http_defer_range_full : forall max_req s, (0 <= max_req < max_i64)%Z ->
-  http_defer_raw max_req s =
-    if int_text s && (0 <=? int_value s)%Z && (int_value s * ns_per_ms <=? max_req)%Z
-    then DpubDelay (int_value s * ns_per_ms) else DpubInvalid.
-Proof. exact http_defer_raw_spec. Qed.
-Print Assumptions C04_http_defer_range_full.
 
 (* RDY is accepted iff 0 <= value <= max-rdy-count (C03's range half, same parser) *)
 Theorem C04_rdy_range_full : forall max_rdy p, (0 <= max_rdy <= max_i64)%Z ->
@@ -106,17 +104,15 @@ Print Assumptions C04_touch_deadline.
 
 (* ================================================================== the heaps *)
 (* heap order and index back-pointers are preserved by every operation of both queues *)
-Theorem C04_push_wf_both :
-  (forall q p v q', hwf q -> if_push q p v = Some q' ->
+Theorem C04_push :
+  ((forall q p v q', hwf q -> if_push q p v = Some q' ->
   hwf q' /\ Permutation (keys (arr q')) ((p, v) :: keys (arr q))) /\
   (forall q p v q', hwf q -> ch_push q p v = Some q' ->
-  hwf q' /\ Permutation (keys (arr q')) ((p, v) :: keys (arr q))).
-Proof. exact (conj (if_push_wf) (ch_push_wf)). Qed.
-Print Assumptions C04_push_wf_both.
-Theorem C04_push_never_panics : forall q p v, cap_ok q ->
-  exists q', if_push q p v = Some q' /\ cap_ok q'.
-Proof. exact if_push_total. Qed.
-Print Assumptions C04_push_never_panics.
+  hwf q' /\ Permutation (keys (arr q')) ((p, v) :: keys (arr q)))) /\
+  (forall q p v, cap_ok q ->
+  exists q', if_push q p v = Some q' /\ cap_ok q').
+Proof. exact (conj ((conj (if_push_wf) (ch_push_wf))) (if_push_total)). Qed.
+Print Assumptions C04_push.
 Theorem C04_pop_wf_both :
   (forall q x q', hwf q -> if_pop q = Some (x, q') ->
   hwf q' /\ removed q 0 x q' /\ (forall k, (k < length (arr q))%nat -> (pri x <= P (arr q) k)%Z)) /\
@@ -126,54 +122,44 @@ Proof. exact (conj (if_pop_wf) (ch_pop_wf)). Qed.
 Print Assumptions C04_pop_wf_both.
 (* Remove(index m) removes exactly m: what comes out is the entry at that index, its
    back-pointer is reset, and the multiset of the rest is unchanged *)
-Theorem C04_remove_wf_both :
-  (forall q i x q', hwf q -> if_remove q i = Some (x, q') ->
+Theorem C04_remove :
+  ((forall q i x q', hwf q -> if_remove q i = Some (x, q') ->
   hwf q' /\ removed q (Z.to_nat i) x q') /\
   (forall q i x q', hwf q -> ch_remove q i = Some (x, q') ->
-  hwf q' /\ removed q (Z.to_nat i) x q').
-Proof. exact (conj (if_remove_wf) (ch_remove_wf)). Qed.
-Print Assumptions C04_remove_wf_both.
-Theorem C04_remove_exact : forall q i x q', (i < length (arr q))%nat -> removed q i x q' ->
-  Permutation (keys (arr q')) (firstn i (keys (arr q)) ++ skipn (S i) (keys (arr q))).
-Proof. exact removed_rest. Qed.
-Print Assumptions C04_remove_exact.
-Theorem C04_remove_defined : forall q i,
-  (0 <= i < Z.of_nat (length (arr q)))%Z <-> exists r, if_remove q i = Some r.
-Proof. exact if_remove_defined. Qed.
-Print Assumptions C04_remove_defined.
+  hwf q' /\ removed q (Z.to_nat i) x q')) /\
+  (forall q i x q', (i < length (arr q))%nat -> removed q i x q' ->
+  Permutation (keys (arr q')) (firstn i (keys (arr q)) ++ skipn (S i) (keys (arr q)))) /\
+  (forall q i,
+  (0 <= i < Z.of_nat (length (arr q)))%Z <-> exists r, if_remove q i = Some r).
+Proof. exact (conj ((conj (if_remove_wf) (ch_remove_wf))) (conj (removed_rest) (if_remove_defined))). Qed.
+Print Assumptions C04_remove.
 (* the container/heap driven deferred queue *)
 
 (* ================================================================== never early *)
 (* PeekAndShift(t) hands out an entry only if its priority is <= t, and that entry is the
    one that leaves the queue -- for ANY array content, well-formed or not *)
-Theorem C04_never_early_peek :
-  (forall q t x q', if_peek q t = (PeekSome x, q') ->
+Theorem C04_never_early :
+  ((forall q t x q', if_peek q t = (PeekSome x, q') ->
   (pri x <= t)%Z /\ removed q 0 x q') /\
   (forall q t x q', ch_peek q t = (PeekSome x, q') ->
-  (pri x <= t)%Z /\ removed q 0 x q').
-Proof. exact (conj (if_peek_never_early) (ch_peek_never_early)). Qed.
-Print Assumptions C04_never_early_peek.
-(* hence everything a scan at t releases was due, whatever the queue looked like *)
-Theorem C04_never_early_scan :
-  (forall q t out q',
+  (pri x <= t)%Z /\ removed q 0 x q')) /\
+  ((forall q t out q',
   if_scan q t = (out, q') -> Forall (fun x => (pri x <= t)%Z) out) /\
   (forall q t out q',
-  ch_scan q t = (out, q') -> Forall (fun x => (pri x <= t)%Z) out).
-Proof. exact (conj (if_scan_never_early) (ch_scan_never_early)). Qed.
-Print Assumptions C04_never_early_scan.
+  ch_scan q t = (out, q') -> Forall (fun x => (pri x <= t)%Z) out)).
+Proof. exact (conj ((conj (if_peek_never_early) (ch_peek_never_early))) ((conj (if_scan_never_early) (ch_scan_never_early)))). Qed.
+Print Assumptions C04_never_early.
+(* hence everything a scan at t releases was due, whatever the queue looked like *)
 
 (* ================================================================== boundedly late *)
 (* on a well-formed heap PeekAndShift(t) returns an entry whenever one is due, and it is
    a minimum *)
-Theorem C04_peek_due :
-  (forall q t k, hwf q ->
+Theorem C04_peek_complete :
+  ((forall q t k, hwf q ->
   (k < length (arr q))%nat -> (P (arr q) k <= t)%Z -> exists x q', if_peek q t = (PeekSome x, q')) /\
   (forall q t k, hwf q ->
-  (k < length (arr q))%nat -> (P (arr q) k <= t)%Z -> exists x q', ch_peek q t = (PeekSome x, q')).
-Proof. exact (conj ((peek_due if_peek if_peek_spec)) ((peek_due ch_peek ch_peek_spec))). Qed.
-Print Assumptions C04_peek_due.
-Theorem C04_peek_min :
-  (forall q t, hwf q ->
+  (k < length (arr q))%nat -> (P (arr q) k <= t)%Z -> exists x q', ch_peek q t = (PeekSome x, q'))) /\
+  ((forall q t, hwf q ->
   match if_peek q t with
   | (PeekNone _, q') => q' = q /\ forall k, (k < length (arr q))%nat -> (t < P (arr q) k)%Z
   | (PeekSome x, q') => hwf q' /\ forall k, (k < length (arr q))%nat -> (pri x <= P (arr q) k)%Z
@@ -182,9 +168,9 @@ Theorem C04_peek_min :
   match ch_peek q t with
   | (PeekNone _, q') => q' = q /\ forall k, (k < length (arr q))%nat -> (t < P (arr q) k)%Z
   | (PeekSome x, q') => hwf q' /\ forall k, (k < length (arr q))%nat -> (pri x <= P (arr q) k)%Z
-  end).
-Proof. exact (conj (if_peek_spec) (ch_peek_spec)). Qed.
-Print Assumptions C04_peek_min.
+  end)).
+Proof. exact (conj ((conj ((peek_due if_peek if_peek_spec)) ((peek_due ch_peek ch_peek_spec)))) ((conj (if_peek_spec) (ch_peek_spec)))). Qed.
+Print Assumptions C04_peek_complete.
 
 (* scan-complete: one scan at t (processInFlightQueue / processDeferredQueue, queue side)
    releases EXACTLY the entries with priority <= t, earliest first, and leaves a
@@ -225,31 +211,26 @@ Proof. exact reachable_capped. Qed.
 Print Assumptions C04_touch_cap_every_history.
 
 (* the deadline an operation sets *)
-Theorem C04_inflight_sets_deadline :
-  (forall max_msg c now id cl timeout c', Inv c ->
+Theorem C04_sets_deadline :
+  ((forall max_msg c now id cl timeout c', Inv c ->
   step max_msg c (StartInFlight now id cl timeout) = (c', Ok) ->
   In ((now + timeout)%Z, id) (keys (arr (c_ifq c'))) /\ In (mkMsg id cl now) (c_inflight c')) /\
   (forall max_msg c now id cl mt c', Inv c ->
   step max_msg c (Touch now id cl mt) = (c', Ok) ->
   exists m, find_msg id (c_inflight c) = Some m /\ m_client m = cl /\
     In (Z.min (now + mt) (m_delivery m + max_msg), id) (keys (arr (c_ifq c'))) /\
-    In m (c_inflight c')).
-Proof. exact (conj (start_sets_deadline) (touch_sets_deadline)). Qed.
-Print Assumptions C04_inflight_sets_deadline.
-Theorem C04_deferred_sets_deadline :
-  (forall max_msg c now id delay c', Inv c ->
+    In m (c_inflight c'))) /\
+  ((forall max_msg c now id delay c', Inv c ->
   step max_msg c (PutDeferred now id delay) = (c', Ok) ->
   In ((now + delay)%Z, id) (keys (arr (c_dfq c')))) /\
   (forall max_msg c now id cl delay c', Inv c -> delay <> 0%Z ->
   step max_msg c (Requeue now id cl delay) = (c', Ok) ->
-  In ((now + delay)%Z, id) (keys (arr (c_dfq c')))).
-Proof. exact (conj (putdef_sets_deadline) (requeue_sets_deadline)). Qed.
-Print Assumptions C04_deferred_sets_deadline.
+  In ((now + delay)%Z, id) (keys (arr (c_dfq c'))))) /\
+  (forall q p p' id, NoDup (vals q) ->
+  In (p, id) (keys (arr q)) -> In (p', id) (keys (arr q)) -> p = p').
+Proof. exact (conj ((conj (start_sets_deadline) (touch_sets_deadline))) (conj ((conj (putdef_sets_deadline) (requeue_sets_deadline))) (unique_deadline))). Qed.
+Print Assumptions C04_sets_deadline.
 (* ... and it is the only entry for that id *)
-Theorem C04_unique_deadline : forall q p p' id, NoDup (vals q) ->
-  In (p, id) (keys (arr q)) -> In (p', id) (keys (arr q)) -> p = p'.
-Proof. exact unique_deadline. Qed.
-Print Assumptions C04_unique_deadline.
 
 (* never early at the channel, in ANY state: whatever a scan at t releases had deadline <= t *)
 Theorem C04_never_early_channel :
